@@ -149,7 +149,8 @@ impl Property for C14 {
             y.push_str(&format!("  t:\n    build: \"@sim id={}.t\"\n", dirs[i]));
             if i <= 1 && invalid.is_none() && rng.chance(8) {
                 // a document that the documented schema excludes: must be rejected, whatever the hash order
-                let (what, text) = match rng.below(12) {
+                let (what, text) = match rng.below(13) {
+                    12 => ("not-utf8", "  bad:\n    build: \"@sim id=x.bad\"   # caf\\xe9 (Latin-1)\n".to_string()),
                     10 => ("cmd-resource-with-extra-key", "  bad:\n    build: \"@sim id=x.bad\"\n    input: [{cmd_stdout: \"@cmd key=ver\", paths: [src]}]\n".to_string()),
                     11 => ("cmd-output-with-unknown-key", "  bad:\n    build: \"@sim id=x.bad\"\n    output: [{cmd_stdout: \"@cmd key=ver\", colour: red}]\n".to_string()),
                     7 => ("output-ref-two-separators", "  bad:\n    build: \"@sim id=x.bad\"\n    input: [\"a::b::t.output\"]\n".to_string()),
